@@ -179,6 +179,39 @@ def _extract(plan, src, outdir, chunk, n_jobs, schedule, scratch):
     return {"err": err, "trace": [list(t) for t in SCHED.trace], "tasks": list(SCHED.task_log), "mm": list(SCHED.mm_writes)}
 
 
+def _real_joblib_extract(plan, src, outdir, scratch):
+    import joblib
+    saved = (wfx.__dict__["Parallel"], wfx.__dict__["delayed"])
+    wfx.__dict__["Parallel"], wfx.__dict__["delayed"] = joblib.Parallel, joblib.delayed
+    sp = np.array(plan["spikes"], dtype=np.int64).reshape(-1, 3)
+    err = None
+    try:
+        wfx.extract_wfs_cbin(src, outdir, sp[:, 0], sp[:, 1], sp[:, 2], max_wf=plan["max_wf"], chunksize_samples=plan["chunk"],
+                             n_jobs=max(2, plan["n_jobs"]), preprocess_steps=[], seed=plan["wf_seed"], scratch_dir=scratch)
+    except Exception as e:
+        import traceback
+        err = (e, traceback.format_exc())
+    finally:
+        wfx.__dict__["Parallel"], wfx.__dict__["delayed"] = saved
+        try:
+            from joblib.externals.loky import get_reusable_executor
+            get_reusable_executor().shutdown(wait=True)
+        except Exception:
+            pass
+    return {"err": err}
+
+
+def sweep_plans(tier, verif_seed):
+    """A few configurations are additionally executed under real joblib (fidelity of the stub)."""
+    from sim.common import run_seed
+    n = {"quick": 2, "thorough": 10}[tier]
+    for i in range(n):
+        p = gen_plan(run_seed(verif_seed, PROP + "-real", i), tier)
+        p["n_jobs"] = max(2, p["n_jobs"])
+        p["real_joblib"] = True
+        yield p
+
+
 def _run(plan, base):
     _install()
     nap, ns = plan["nap"], plan["ns"]
@@ -231,6 +264,22 @@ def _run(plan, base):
             outs[tag] = _load(od)
             log.append([tag, chunk, n_jobs, sha1_file(od / "waveforms.traces.npy"), res["trace"][:300], res["tasks"]])
             _check_files(plan, tag, outs[tag], V, neigh, sp, valid, ns, nap, od, res, chunk, n_jobs, probe, stats, sigbase)
+        if plan.get("real_joblib"):
+            od = base / "out_real"
+            od.mkdir()
+            real = _real_joblib_extract(plan, src, od, base / "scratch")
+            if real["err"]:
+                raise RuntimeError(f"real joblib run failed: {real['err'][1][-1500:]}")
+            rl = _load(od)
+            same = np.array_equal(rl["traces"], outs["ref"]["traces"], equal_nan=True) and \
+                rl["table"].drop(columns=["index"], errors="ignore").reset_index(drop=True).equals(
+                    outs["ref"]["table"].drop(columns=["index"], errors="ignore").reset_index(drop=True))
+            stats["probes"]["real_joblib_runs"] = 1
+            stats["probes"]["real_joblib_agree_with_simulated"] = int(same)
+            log.append(["real", plan["n_jobs"], int(same)])
+            if not same:
+                raise RuntimeError("SIMULATOR-FIDELITY: waveforms under real joblib differ from the 1-worker/simulated result; "
+                                   "not replayable, reported as a harness error")
         a, b = outs["ref"], outs["sim"]
         # W4: independent of chunk size / workers / schedule
         ta = a["table"].drop(columns=["index"], errors="ignore").reset_index(drop=True)
@@ -245,7 +294,7 @@ def _run(plan, base):
     stats["outcomes"]["violation" if viol else "held"] = 1
     return {"violation": viol, "stats": stats, "digest": digest(log), "plan": dict(plan),
             "sample": {"plan": {k: (v if k != "spikes" else v[:12]) for k, v in plan.items() if k != "trace"},
-                       "n_spikes": len(plan["spikes"]), "schedule_head": (log[-1][4][:10] if log else None)}}
+                       "n_spikes": len(plan["spikes"]), "schedule_head": next((e[4][:10] for e in reversed(log) if e[0] == "sim"), None)}}
 
 
 def _prelude(plan, base, probe, stats, sigbase):
